@@ -1,24 +1,30 @@
 import LibInj.Proofs.Case
 import LibInj.Xss.IsXSS
+import LibInj.Proofs.XssCase
 set_option linter.unusedSimpArgs false
 /-! # C11 — XSS detection is insensitive to letter case and to NUL bytes inside names
+
+**Proved for every pair of inputs (`xss_case_insensitive`, the letter-case clause of the property):**
+if `s` and `s'` differ only in the case of ASCII letters and neither contains the marker `[CDATA[`
+(the only case-sensitive one), then `isXSS s = isXSS s'`. The proof shows that every state function
+of the HTML5 tokenizer commutes with lower-casing its input (`next_L` — the machine inspects letters
+only through `isAlpha` and the `doctype` fold; every byte it searches for or compares with is a
+non-letter), that the character-reference decoder consumes the same bytes and yields values equal up
+to the case of a literal letter (`htmlDecodeByteAt_L`; the hex map is case-blind: table fact), that
+the URL matcher, the comment tests and the classifiers are case-blind, and that the `isXSS` loop
+therefore returns the same verdict (`xssLoop_L`).
 
 Proved for every name (the classifiers are where names meet the black lists):
 
 * `isBlackTag_case`, `isBlackAttr_case` — re-assigning the case of ASCII letters changes neither
-  classification (via `goUpper_case_invariant`: the model of `strings.ToUpper`, including its two
-  non-ASCII special cases, is invariant under ASCII case re-assignment, and NUL-stripping commutes
-  with it);
+  classification;
 * `isBlackTag_nul`, `isBlackAttr_nul` — inserting a NUL byte anywhere in a name changes neither
   classification; for tags this needs the table fact that no black tag is shorter than 3 bytes
-  (`black_tags_min_length`, re-checked on every build), because the raw-length guard `len < 3` is
-  applied before the NULs are stripped;
-* `name_scan_nul` — a NUL is an ordinary name byte for both name scans, so an inserted NUL moves
-  the end of the name by exactly one.
+  (`black_tags_min_length`, re-checked on every build);
+* `name_scan_nul` — a NUL is an ordinary name byte for both name scans.
 
-Not yet a theorem (`xss_case_insensitive_statement`): congruence of the whole tokenizer under case
-re-assignment (it inspects letters only through `isAlpha` and the `doctype` fold) — decided by the
-case/NUL metamorphic oracle over every generated input and every list entry. -/
+Not yet a theorem: the NUL clause at tokenizer level (an inserted NUL shifts every later offset by
+one) — decided by the NUL metamorphic oracle over every generated input and every list entry. -/
 namespace LibInj.Properties.C11
 open LibInj LibInj.Xss LibInj.H5
 
@@ -85,5 +91,17 @@ example : CaseEq [83, 99, 82, 105, 112, 116] [115, 67, 114, 73, 80, 84] ∧ isBl
   constructor
   · unfold CaseEq; decide
   · decide +kernel
+
+/-- **C11, letter case: full clause.** -/
+theorem xss_case_insensitive (s s' : Bytes) (h : CaseEq s s') (hno : NoCdata s) (hno' : NoCdata s') :
+    isXSS s = isXSS s' := isXSS_case_insensitive s s' h hno hno'
+
+/-- one step of the tokenizer commutes with lower-casing the input -/
+theorem tokenizer_step_case (h : H) (hno : NoCdata h.s) : next (lowerH h) = mapR (next h) := next_L h hno
+
+/-- non-vacuity: `<ScRiPt>` and `<script>` are case variants without a CDATA marker -/
+example : CaseEq [60, 83, 99, 82, 105, 80, 116, 62] [60, 115, 99, 114, 105, 112, 116, 62] := by
+  show List.map lowerAscii _ = List.map lowerAscii _
+  decide
 
 end LibInj.Properties.C11
